@@ -52,18 +52,30 @@ def write_failing_templates(d):
     os.makedirs(d, exist_ok=True)
     for n in ("StructureType", "UnionType", "DelimitedType", "ServiceType"):
         with open(os.path.join(d, n + ".j2"), "w") as f:
-            f.write("// first line of {{ T.full_name }}\n\n\n} // partial line, then a statement raises: {% if T.no_such_attribute.deeper %}x{% endif %} rest\n")
+            f.write("// first line of {{ T.full_name }} {{ 'sat'|to_template_unique_name }} {{ 'err'|to_template_unique_name }} {{ 'sat'|to_template_unique_name }}\n\n\n"
+                    "} // partial line, then a statement raises: {% if T.no_such_attribute.deeper %}x{% endif %} rest\n")
     return d
 
 
-def failed_generation_first(ctx, d, types, root_dir, lang):
-    bad = write_failing_templates(os.path.join(d, "failing_templates"))
+def failed_generation_first(ctx, d, types, root_dir, lang, how=0):
+    """An earlier generation in this interpreter that fails and is caught by the caller: how=0 a user template raises in the middle of a
+    line after drawing unique names; how=1 the built-in templates render a file completely and a file post-processor then raises."""
     o = os.path.join(d, "out_failed")
     try:
-        genrun.gen_inprocess(types, root_dir, o, lang, templates_dir=bad)
+        if how == 0:
+            bad = write_failing_templates(os.path.join(d, "failing_templates"))
+            genrun.gen_inprocess(types, root_dir, o, lang, templates_dir=bad)
+        else:
+            import nunavut._postprocessors as PP
+
+            class Raising(PP.FilePostProcessor):
+                def __call__(self, generated):
+                    raise RuntimeError("injected post-processing fault")
+            genrun.gen_inprocess(types, root_dir, o, lang, post_processors=[Raising()])
         ctx.count("injected_generation_faults_that_did_not_fail")
     except Exception:
         ctx.count("injected_generation_faults")
+        ctx.count("injected_generation_faults[%s]" % ("template" if how == 0 else "file_post_processor"))
     shutil.rmtree(o, ignore_errors=True)
 
 
@@ -101,6 +113,10 @@ ROLE_SET = {
     "roleq/register/Total.1.0.dsdl": "roleq.Motor.1.0 motor\nuint8 atomic_x\n@sealed\n",
     "roleq/Svc.1.0.dsdl": "uint8 torque\nroleq.Island.1.0 memory\n@sealed\n---\nuint8 string\nuint8 register\n@sealed\n",
     "roleq/Torque.1.0.dsdl": "@union\nuint8 torque\nroleq.Motor.1.0 string\nuint16 E2BIG\n@sealed\n",
+    # zero-length types, first and last in name order (whatever is processed first may decide what templates get loaded when)
+    "roleq/Ack.1.0.dsdl": "@sealed\n",
+    "roleq/Zzack.1.0.dsdl": "@extent 0\n",
+    "roleq/AckSvc.1.0.dsdl": "@sealed\n---\nuint8[<=3] string\nroleq.Ack.1.0 ack\n@sealed\n",
 }
 
 
@@ -232,9 +248,9 @@ def one_set(ctx, idx, probes):
                             variants.append(("shared_pp_list", run(types, shared_pps=shared)))
                         except Exception as e:
                             ctx.refute(None, "variant shared_pp_list failed: %r" % e, dict(set=idx, root=root, lang=lang))
-                for flang in ("c", "py"):
+                for flang, how in (("c", 0), ("py", 0), (lang, 1), ("c", 1)):
                     try:
-                        failed_generation_first(ctx, d, types, root_dir, flang)
+                        failed_generation_first(ctx, d, types, root_dir, flang, how)
                         variants.append(("after_failed", run(types)))
                     except Exception as e:
                         ctx.refute(None, "variant after_failed failed: %r" % e, dict(set=idx, root=root, lang=lang))
